@@ -569,3 +569,117 @@ def relax_family(tier, seed):
             'evaluations': evals, 'distinct_nontrivial': nontriv,
             'rule': 'exhaustive product of the stated parameter lists; distinct by parameter tuple; non-trivial when the initial string does not already satisfy the postcondition',
             'samples': samples, 'failures': fails, 'files': files}
+
+
+# ----------------------------------------------------------------------------
+# bounded: input forms of the integrators; settings carried from step to step
+
+@group('integrators.input_forms', kind='bounded', files=[EULER, RK], functions=['mep.integrator.euler', 'mep.integrator.rungekutta'],
+       clause='one Euler / Runge-Kutta step on y -> A y equals its Taylor polynomial (degree 1 / 4) whatever form the state is given in: float or integer-valued NumPy array, Python list of '
+              'floats or ints, an (m, n) batch of states; the caller\'s state is left unchanged',
+       rule='n = 1..4, 3 seeded matrices each, step sizes 0.5, -0.25, 1.7, 1e-3; forms: float array, int64 array, list of ints, list of floats, (3, n) int batch; oracle: explicit matrix powers; '
+            'distinct by (n, matrix, step, form); non-trivial = integer-typed forms')
+def integrator_input_forms(tier, seed):
+    from pyvc.native import atomman
+    import numpy as np
+    import hashlib
+    import os
+    am = atomman()
+    rng = np.random.RandomState(31 + seed)
+    fails, samples = [], []
+    evals = nontriv = 0
+    for n in (1, 2, 3, 4):
+        for rep in range(3):
+            A = rng.uniform(-1, 1, (n, n)).round(3)
+            yi = rng.randint(-4, 5, n)
+            if not yi.any():
+                yi[0] = 3
+            for h in (0.5, -0.25, 1.7, 1e-3):
+                rate_vec = lambda c, **kw: np.asarray(c, dtype=float).dot(A.T)
+                forms = {'float array': yi.astype(float), 'int64 array': yi.astype('int64'), 'list of ints': [int(v) for v in yi], 'list of floats': [float(v) for v in yi],
+                         'int batch': np.array([yi, 2 * yi, -yi], dtype='int64')}
+                for fname, y in forms.items():
+                    keep = np.array(y, copy=True)
+                    yf = np.asarray(y, dtype=float)
+                    for iname, fn, deg in (('euler', am.mep.integrator.euler, 1), ('rungekutta', am.mep.integrator.rungekutta, 4)):
+                        evals += 1
+                        nontriv += 'int' in fname
+                        want = np.zeros_like(yf)
+                        term = yf.copy()
+                        fact = 1.0
+                        for d in range(deg + 1):
+                            want = want + term / fact
+                            term = h * term.dot(A.T)
+                            fact *= (d + 1)
+                        try:
+                            got = np.asarray(fn(rate_vec, y, h), dtype=float)
+                            ok = got.shape == want.shape and np.allclose(got, want, rtol=1e-10, atol=1e-12 * (1 + np.abs(want).max()))
+                            detail = '%s step on %s %r with h=%r gives %r, Taylor degree %d gives %r (A=%r)' % (iname, fname, np.asarray(y).tolist(), h, got.tolist(), deg, want.tolist(), A.tolist())
+                        except Exception as e:
+                            ok, detail = False, '%s step on %s %r raised %s: %s' % (iname, fname, np.asarray(y).tolist(), type(e).__name__, e)
+                        if ok and not np.array_equal(np.asarray(y), keep):
+                            ok, detail = False, '%s step changed the state it was given (%s)' % (iname, fname)
+                        if not ok:
+                            fails.append({'obligation': 'integrators.input_forms.post', 'key': '%s,%s,n=%d,h=%r,rep=%d' % (iname, fname, n, h, rep), 'input': {'A': A.tolist(), 'y': np.asarray(y).tolist(), 'h': h},
+                                          'detail': detail})
+            if len(samples) < 2:
+                samples.append({'A': A.tolist(), 'y': yi.tolist()})
+    files = {rel: hashlib.sha256(open(os.path.join(REPO, rel), 'rb').read()).hexdigest() for rel in (EULER, RK)}
+    return {'family': 'linear rate laws, n = 1..4, five input forms, four step sizes', 'evaluations': evals, 'distinct_nontrivial': nontriv, 'rule': 'see group rule', 'samples': samples,
+            'failures': fails[:15], 'files': files}
+
+
+@group('ISMPath.settings_carried', kind='bounded', files=[ISM, BASE], functions=['ISMPath.step', 'ISMPath.interpolate_path', 'ISMPath.relax'],
+       clause='the path returned by a step is relaxed with the SAME energy function, gradient function and gradient options as the path it came from: over several steps every gradient '
+              'evaluation receives the configured options',
+       rule='2 surfaces x gradient options {default, shift=1e-3, shift=1e-7} x {step x3, relax 3+3 with climbing}; the gradient function is a recording wrapper around central_difference; '
+            'distinct by (surface, options, driver); non-trivial = non-default options')
+def settings_carried(tier, seed):
+    from pyvc.native import atomman
+    import numpy as np
+    import hashlib
+    import os
+    am = atomman()
+    fails, samples = [], []
+    evals = nontriv = 0
+    surfaces = {'double well': lambda p: (np.asarray(p)[..., 0] ** 2 - 1) ** 2 + 2.0 * np.asarray(p)[..., 1] ** 2,
+                'bent': lambda p: (np.asarray(p)[..., 0] ** 2 - 1) ** 2 + 3.0 * (np.asarray(p)[..., 1] - 0.3 * np.asarray(p)[..., 0] ** 2 + 0.3) ** 2}
+    for sname, en in surfaces.items():
+        for opts in ({}, {'shift': 1e-3}, {'shift': 1e-7}):
+            for driver in ('steps', 'relax'):
+                evals += 1
+                nontriv += bool(opts)
+                seen = []
+
+                def grad(fxn, coord, **kw):
+                    seen.append(dict(kw))
+                    return am.mep.gradient.central_difference(fxn, coord, **kw)
+                x = np.linspace(-0.9, 0.9, 9)
+                coord = np.stack([x, 0.2 * (1 - x ** 2)], axis=1)
+                msgs = []
+                try:
+                    path = am.mep.ISMPath(coord, en, gradientfxn=grad, gradientkwargs=dict(opts))
+                    if driver == 'steps':
+                        p = path
+                        for k in range(3):
+                            p = p.step(timestep=0.01)
+                            if p.gradientkwargs != opts:
+                                msgs.append('after %d step(s) the path holds gradient options %r, configured %r' % (k + 1, p.gradientkwargs, opts))
+                            if p.gradientfxn is not grad:
+                                msgs.append('after %d step(s) the path holds another gradient function' % (k + 1))
+                    else:
+                        p = path.relax(relaxsteps=3, climbsteps=3, timestep=0.01)
+                        if p.gradientkwargs != opts:
+                            msgs.append('the relaxed path holds gradient options %r, configured %r' % (p.gradientkwargs, opts))
+                    bad = [kw for kw in seen if kw != opts]
+                    if bad:
+                        msgs.append('%d of %d gradient evaluations received options %r instead of the configured %r' % (len(bad), len(seen), bad[0], opts))
+                    if not seen:
+                        msgs.append('the configured gradient function was never called')
+                except Exception as e:
+                    msgs.append('raised %s: %s' % (type(e).__name__, e))
+                if msgs:
+                    fails.append({'obligation': 'settings_carried.post', 'key': '%s,%r,%s' % (sname, opts, driver), 'input': {'surface': sname, 'gradientkwargs': opts, 'driver': driver}, 'detail': '; '.join(msgs[:2])})
+        samples.append({'surface': sname})
+    files = {rel: hashlib.sha256(open(os.path.join(REPO, rel), 'rb').read()).hexdigest() for rel in (ISM, BASE)}
+    return {'family': '2 surfaces x 3 gradient option sets x 2 drivers', 'evaluations': evals, 'distinct_nontrivial': nontriv, 'rule': 'see group rule', 'samples': samples, 'failures': fails[:10], 'files': files}
